@@ -13,7 +13,8 @@ EXTENDS DebDependency
 \* alternative = [name, restr]  restr \in {"none", "only-target", "only-other", "not-target", "not-other", "not-target2", "substvar"}
 \*   "q-native" / "q-any" / "q-target": the name carries a multiarch qualifier (pkg:native, pkg:any, pkg:amd64) - it still names
 \*   that binary;  "versioned": a version constraint follows the name
-Admits(restr) == restr \in {"none", "only-target", "not-other", "q-native", "q-any", "q-target", "versioned"}
+\*   "only-kbsd-any" [kfreebsd-any] / "not-kbsd-any" [!kfreebsd-any]: a wildcard for ANOTHER operating system (the target is linux)
+Admits(restr) == restr \in {"none", "only-target", "not-other", "q-native", "q-any", "q-target", "versioned", "not-kbsd-any", "only-linux-any"}
 Selected(rel) == LET ok == {k \in 1..Len(rel) : rel[k].restr # "substvar" /\ Admits(rel[k].restr)} IN
                  IF ok = {} THEN <<>> ELSE <<rel[CHOOSE k \in ok : \A j \in ok : k <= j].name>>
 \* source = [name, binaries, fields]  fields = <<bd, bda, bdi>> each a sequence of relations
@@ -51,6 +52,9 @@ TargetArch == <<97, 109, 100, 54, 52>>   OtherArch == <<105, 51, 56, 54>>
 RenderAlt(a) ==
     CASE a.restr = "substvar"    -> <<DOLLAR, LBRACE>> \o a.name \o <<RBRACE>>
       [] a.restr = "none"        -> a.name
+      [] a.restr = "only-kbsd-any"  -> a.name \o <<SP, LBRACK, 107, 102, 114, 101, 101, 98, 115, 100, HYPHEN, 97, 110, 121, RBRACK>>
+      [] a.restr = "not-kbsd-any"   -> a.name \o <<SP, LBRACK, BANG, 107, 102, 114, 101, 101, 98, 115, 100, HYPHEN, 97, 110, 121, RBRACK>>
+      [] a.restr = "only-linux-any" -> a.name \o <<SP, LBRACK, 108, 105, 110, 117, 120, HYPHEN, 97, 110, 121, RBRACK>>
       [] a.restr = "q-native"    -> a.name \o <<COLON, 110, 97, 116, 105, 118, 101>>
       [] a.restr = "q-any"       -> a.name \o <<COLON, 97, 110, 121>>
       [] a.restr = "q-target"    -> a.name \o <<COLON>> \o TargetArch
